@@ -331,3 +331,102 @@ func placementBehindAStuckHandler(rec *mon.Recorder, c int) {
 	}
 	rec.Case(mon.Digest(desc), true)
 }
+
+// placementWhileAMemberIsDown: a member whose process is down is still a member (nothing has removed it): placement
+// draws from the membership, not from what is reachable at the moment. Three nodes that have all talked to each other;
+// node 3 goes down; datasets created through the other two are placed on min(R, 3) distinct nodes of {1, 2, 3}, and
+// over all their partitions node 3 gets its share.
+func TestC16SimMemberDown(t *testing.T) {
+	rec := shared
+	n := rec.N(2, 12)
+	for c := 0; c < n; c++ {
+		if rec.Mine(c + 7) {
+			placementWhileAMemberIsDown(rec, c)
+		}
+	}
+}
+
+func placementWhileAMemberIsDown(rec *mon.Recorder, c int) {
+	rng := rec.Rand("c16-down", c)
+	desc := fmt.Sprintf("placement-while-a-member-is-down case=%d nodes=3", c)
+	rec.Current(desc)
+	cl := sim.New(sim.Options{Nodes: 3, Dir: os.Getenv("VERIF_SCRATCH") + fmt.Sprintf("/c16d-%d", c), TickEvery: 5 * time.Millisecond, Seed: rec.Seed() + int64(c)})
+	defer cl.Close()
+	if err := cl.Start(); err != nil {
+		rec.Inconclusive(desc + ": cluster start: " + err.Error())
+		return
+	}
+	// every node talks to every other one: a replicated dataset written and searched through each node
+	dsId, _, err := cl.CreateDataset(0, 3, 3, 3, pb.Space_Euclidean)
+	if err != nil {
+		rec.Inconclusive(desc + ": create: " + err.Error())
+		return
+	}
+	for i, n := range cl.Nodes {
+		for k := 0; k < 4; k++ {
+			ictx, cancel := context.WithTimeout(context.Background(), 5*time.Second)
+			n.Dataset(dsId).Insert(ictx, uuid.NewV4(), []float32{float32(i), float32(k), 1}, nil)
+			cancel()
+		}
+		sctx, cancel := context.WithTimeout(context.Background(), 5*time.Second)
+		n.Dataset(dsId).Search(sctx, []float32{1, 2, 3}, 5)
+		cancel()
+	}
+	down := cl.Nodes[1+rng.Intn(2)]
+	cl.Crash(down.Idx)
+	cl.Teardown(down.Idx)
+	time.Sleep(time.Duration(300+rng.Intn(600)) * time.Millisecond) // the others' connections to it have failed by now
+	members := map[uint64]bool{1: true, 2: true, 3: true}
+	replay := map[string]interface{}{"case": c, "seed": rec.Seed(), "desc": desc, "down": down.Id}
+	onDown, total := 0, 0
+	for _, via := range cl.Nodes {
+		if via == down {
+			continue
+		}
+		for _, R := range []uint32{1, 2, 3, 4} {
+			var d *storage.Dataset
+			var cerr error
+			for attempt := 0; attempt < 8 && d == nil; attempt++ {
+				cl.Guard(6*time.Second, func() {
+					d, cerr = via.DM().Create(context.Background(), &pb.Dataset{Dimension: 3, PartitionCount: 6, ReplicationFactor: R})
+				})
+				if d == nil {
+					time.Sleep(300 * time.Millisecond)
+				}
+			}
+			if d == nil {
+				rec.Inconclusive(fmt.Sprintf("%s: create through node %d: %v", desc, via.Id, cerr))
+				return
+			}
+			want := int(R)
+			if want > 3 {
+				want = 3
+			}
+			for i, p := range d.Meta().GetPartitions() {
+				seen := map[uint64]bool{}
+				for _, id := range p.GetNodeIds() {
+					if !members[id] || seen[id] {
+						rec.Violation("placement:duplicate-or-non-member:while-a-member-is-down", fmt.Sprintf("%s: partition %d on %v", desc, i, p.GetNodeIds()), replay)
+						return
+					}
+					seen[id] = true
+					if id == down.Id {
+						onDown++
+					}
+				}
+				total++
+				if len(p.GetNodeIds()) != want {
+					rec.Violation("placement:wrong-replica-count:while-a-member-is-down", fmt.Sprintf("%s: R=%d through node %d while member %d is down (not removed): partition %d on %v, want %d of the 3 members", desc, R, via.Id, down.Id, i, p.GetNodeIds(), want), replay)
+					return
+				}
+				rec.Count("placements_checked_while_a_member_is_down", 1)
+			}
+		}
+	}
+	// 48 partitions, 12 of them with one replica and 12 with two: the member that is down is drawn like the others
+	if onDown == 0 {
+		rec.Violation("placement:member-never-drawn:while-a-member-is-down", fmt.Sprintf("%s: none of %d partitions created while member %d was down (not removed) was placed on it", desc, total, down.Id), replay)
+		return
+	}
+	rec.Case(mon.Digest(desc), true)
+}
